@@ -4,6 +4,9 @@ import json, os
 V = os.path.dirname(os.path.dirname(os.path.abspath(__file__)))
 PY = "/venv/bin/python"
 CHECKS = {
+ "C01": dict(design="3/C01", technique="exhaustive enumeration of character strings and token strings against a reference tokenizer/precedence grammar, differential replay of the fully parenthesised rendering through the implementation",
+   text="Bounded exhaustive model checking on the real scanner/parser/resolver: every character string up to length 4 (6 thorough) over 17 characters is compared token by token with a reference tokenizer; every token string up to length 4 over 24 token classes, length 5 over 18 classes (5/6/7 thorough) plus all flat operator chains and unary decorations is classified by a generous reference grammar - a non-sentence must be rejected and the parser cursor must reach EOF; every accepted sentence is replayed as its fully parenthesised form (implicit intercept explicit), with each sub-expression wrapped in redundant parentheses and in every whitespace variant, and must give the identical model.",
+   note="Trusts the reference tokenizer and precedence table (fmc/refmodel/grammar.py); strings longer than the bounds and call-argument semantics (C12) are not covered; acceptance is never demanded."),
  "C02": dict(design="3/C02", technique="exhaustive enumeration of operator trees against a frozenset reference model of the term algebra",
    text="Bounded exhaustive model checking on the real code: every operator tree up to 4 leaves (5 in the thorough tier) over five atoms, every (E|G) stratum and every placement of 0/1/-1 at additive positions is run through model_description and compared with an independent set-semantics reference model; all reference expectations are replayed on the implementation.",
    note="Trusts the reference algebra (fmc/refmodel/algebra.py, pinned by selftests) and Python; trees beyond the leaf bound are not covered."),
